@@ -118,7 +118,8 @@ def check(tally, constraints, timeout_ms=60000, label=None, keep_sample=False, s
 # evidence
 # ------------------------------------------------------------------------------------
 def write_evidence(prop, level, coverage, assumptions, wall, violations, tier_):
-    os.makedirs(os.path.join(VERIF, "evidence"), exist_ok=True)
+    evdir = os.environ.get("VERIF_EVIDENCE_DIR") or os.path.join(VERIF, "evidence")
+    os.makedirs(evdir, exist_ok=True)
     ev = {
         "property_id": prop,
         "tier": tier_,
@@ -129,7 +130,7 @@ def write_evidence(prop, level, coverage, assumptions, wall, violations, tier_):
         "wall_s": round(wall, 2),
         "violations": violations,
     }
-    path = os.path.join(VERIF, "evidence", "%s.json" % prop)
+    path = os.path.join(evdir, "%s.json" % prop)
     tmp = path + ".tmp"
     with open(tmp, "w") as fh:
         json.dump(ev, fh, indent=1, default=str)
